@@ -40,6 +40,8 @@ type Job struct {
 	Tracer []drive.TracerScenario `json:"tracer"`
 	// Mode "cancel": cancel point (number of traces) per schedule index, -1 = reference run
 	CancelAt []int `json:"cancel_at"`
+	// Mode "values"
+	Values []drive.ValueScenario `json:"values"`
 	// Mode "set"
 	Sets []drive.SetScenario `json:"sets"`
 	// Mode "timer"
@@ -48,11 +50,13 @@ type Job struct {
 }
 
 type RunLog struct {
-	Run   int            `json:"run"`
-	Log   []drive.Rec    `json:"log"`
-	TLog  []drive.TRec   `json:"tlog,omitempty"`
-	TmLog []drive.TmRec  `json:"tmlog,omitempty"`
-	SLog  []drive.SetRec `json:"slog,omitempty"`
+	Run   int                `json:"run"`
+	Log   []drive.Rec        `json:"log"`
+	TLog  []drive.TRec       `json:"tlog,omitempty"`
+	TmLog []drive.TmRec      `json:"tmlog,omitempty"`
+	SLog  []drive.SetRec     `json:"slog,omitempty"`
+	VRes  *drive.ValueResult `json:"vres,omitempty"`
+	Crash string             `json:"crash,omitempty"`
 }
 
 func (o JobOpts) driveOpts() drive.Options {
@@ -122,6 +126,9 @@ func WorkerMain(args []string) int {
 			p := job.Programs[sch.Prog]
 			log := drive.CancelRun(i, sch.Prog, p, job.CancelAt[i], job.Opts.driveOpts(), fmt.Sprintf("c%d-%d", os.Getpid(), i))
 			line, _ = json.Marshal(RunLog{Run: i, Log: log})
+		} else if job.Opts.Mode == "values" {
+			vr := drive.ValueRun(i, job.Values[i])
+			line, _ = json.Marshal(RunLog{Run: i, Log: []drive.Rec{}, VRes: &vr})
 		} else if job.Opts.Mode == "set" {
 			sl := drive.SetRun(i, job.Sets[i], job.Opts.driveOpts().T)
 			line, _ = json.Marshal(RunLog{Run: i, Log: []drive.Rec{}, SLog: sl})
@@ -234,7 +241,7 @@ func ReplayAllRaw(dir string, job *Job, nworkers int) (map[int]RunLog, error) {
 				// crash during run lastBegin
 				if lastBegin > lastDone {
 					mu.Lock()
-					res[lastBegin] = RunLog{Run: lastBegin, Log: []drive.Rec{
+					res[lastBegin] = RunLog{Run: lastBegin, Crash: crashSummary(stderr.String()), Log: []drive.Rec{
 						{Run: lastBegin, Ev: "init", N: job.Schedules[lastBegin].Prog, Flows: []string{}, Vars: map[string]int{}},
 						{Run: lastBegin, Ev: "crash", Kind: crashSummary(stderr.String()), Flows: []string{}, Vars: map[string]int{}},
 					}, TLog: []drive.TRec{{Run: lastBegin, Ev: "init", P: 1}, {Run: lastBegin, Ev: "crash", S: crashSummary(stderr.String())}},
